@@ -488,12 +488,18 @@ pub fn adam_chain_case(report: &mut Report, seed: u64, idx: u64, prop: &str) {
         for r in &hyp {
             let c_sym = r.advanced(&o, a_sym, target_accept);
             let c_asym = r.advanced(&o, a, target_accept);
+            // an accepted candidate continues from the step size the implementation actually holds: only the error of
+            // one update is judged, rounding differences do not add up over a long warmup
+            let resync = |mut c: RefAdam| {
+                c.log_step = bar.ln();
+                c
+            };
             if ok(&c_sym) {
-                next.push(c_sym);
+                next.push(resync(c_sym));
             }
             if ok(&c_asym) {
                 if dd < f_win {
-                    next.push(c_asym);
+                    next.push(resync(c_asym));
                 } else if !ok(&c_sym) {
                     asym_matches_in_final = true;
                 }
@@ -505,7 +511,8 @@ pub fn adam_chain_case(report: &mut Report, seed: u64, idx: u64, prop: &str) {
             next.push(RefAdam::new(bar));
         }
         next.sort_by(|x, y| (x.log_step, x.m, x.v).partial_cmp(&(y.log_step, y.m, y.v)).unwrap_or(std::cmp::Ordering::Equal));
-        next.dedup_by(|x, y| (x.log_step - y.log_step).abs() < 1e-13 && (x.m - y.m).abs() < 1e-13 && x.t == y.t);
+        // (two states are the same only if the slowly forgetting second moment agrees as well)
+        next.dedup_by(|x, y| (x.log_step - y.log_step).abs() < 1e-13 && (x.m - y.m).abs() < 1e-13 && (x.v - y.v).abs() <= 1e-13 * (x.v.abs() + 1e-300) && x.t == y.t);
         if next.len() > 256 {
             report.inconclusive("adam chain: too many hypotheses");
             return;
